@@ -3,6 +3,7 @@ Helper function to convert L{docutils} nodes to Stan tree.
 """
 from __future__ import annotations
 
+import os
 import re
 import optparse
 from typing import Any, Callable, ClassVar, Iterable, List, Optional, Union, TYPE_CHECKING
@@ -194,6 +195,24 @@ class HTMLTranslator(html4css1.HTMLTranslator):
             super().footnote_backrefs(node)
         finally:
             node['backrefs'] = backrefs
+
+    def visit_image(self, node: nodes.Node) -> None:
+        # The html4css1 writer presents some kinds of images (svg, swf, mp4...) with an <object> element
+        # and it copies the alternate text - or the address of the image, when there is none -
+        # verbatim into this element: escape it, such that it can't become markup.
+        extension = os.path.splitext(node['uri'])[1].lower()
+        if extension not in getattr(self, 'object_image_types', ()):
+            return super().visit_image(node) # type: ignore[no-any-return]
+        has_alt = 'alt' in node
+        alt = node.get('alt')
+        node['alt'] = self.encode(node.get('alt', node['uri']))
+        try:
+            super().visit_image(node)
+        finally:
+            if has_alt:
+                node['alt'] = alt
+            else:
+                del node['alt']
 
     def visit_doctest_block(self, node: nodes.Node) -> None:
         pysrc = node[0].astext()
